@@ -116,12 +116,12 @@ def classify(st, p, y, diffs):
     pre = p.get('pre', {})
     A, B = pre.get('a'), pre.get('b')
     zero_size = any(x and x.get('zero_size') for x in (A, B))
-    if op in ADD_OPS and A and B and A['labels'] != B['labels'] and None not in A['labels'] and \
-            sorted(A['labels']) == sorted(B['labels']):
-        return 'C04:iadd_prefactor_other:operands-with-permuted-labels'
     only_dtype = diffs and all(d.endswith('/dtype') or d.endswith('/block-dtypes') for d in diffs)
     if only_dtype and op in ADD_OPS + SCALE_OPS and ((A and A['nblocks'] == 0) or (B and B['nblocks'] == 0)):
         return 'C04:py:dtype-not-promoted:operand-without-blocks'
+    if op in ADD_OPS and A and B and A['labels'] != B['labels'] and None not in A['labels'] and \
+            sorted(A['labels']) == sorted(B['labels']):
+        return 'C04:iadd_prefactor_other:operands-with-permuted-labels'
     if only_dtype and op in ('inner', 'w_inner', 'tensordot') and A and B and \
             A['dtype'] == 'int64' and B['dtype'] == 'int64' and p.get('res', {}).get('k') == 'scalar':
         return 'C04:inner:scalar-dtype:integer-operands'
@@ -367,6 +367,8 @@ def main(ctx):
     mark('proofs')
     mult = 3 if not ctx.proof.ok else 1
     nprog = ctx.pick(500, 4000) * mult
+    if ctx.replay_in:
+        return replay(ctx)
     # ---- corpus first
     corpus = [c['case'] for c in common.corpus_cases('C04') if c.get('stream') == 'programs']
     # stream 1: random programs, public API + direct worker calls
@@ -507,6 +509,34 @@ def main(ctx):
                       'interpreter and every observable (legs incl. pipe tables, labels, qtotal, dtype, block set, values, error class) '
                       'is diffed; the Coq models of both variants of make_valid/check_valid/_find_row_differences/_make_stride/_map_blocks '
                       'are proved equal and each is evaluated (vm_compute) against its configuration')
+
+
+def replay(ctx):
+    """./check C04 --replay file: re-run the recorded input in both configurations"""
+    import json
+    doc = json.load(open(ctx.replay_in))
+    inp = doc.get('input') or {}
+    case = inp.get('case')
+    if case is None:
+        print('replay: the file names no input (%s)' % doc.get('what', '')[:200])
+        return ctx.finish(RULE)
+    if inp.get('stream') == 'kernels':
+        out, _ = run_both(ctx, 'kernels', [case], nchunks=1)
+        if out is not None:
+            p, y = out['py'][0], out['cy'][0]
+            print('py:', str(p)[:400])
+            print('cy:', str(y)[:400])
+            if p != y and obs_diff(p, y, case['f']):
+                ctx.fail('oracle', 'helper %s differs between the configurations: %s' % (case['f'], obs_diff(p, y, case['f'])[:4]),
+                         {'stream': 'kernels', 'case': case, 'py': p, 'cy': y})
+    elif inp.get('stream') == 'algorithms':
+        out, _ = run_both(ctx, 'algos', [case], nchunks=1)
+        print(out)
+    else:
+        out, _ = run_both(ctx, 'programs', [case], nchunks=1)
+        if out is not None:
+            compare_programs(ctx, inp.get('stream', 'programs'), [case], out)
+    return ctx.finish(RULE, 'replay of ' + ctx.replay_in)
 
 
 RULE = ('programs: random programs of 4-8 steps over tensors of rank 1-4 with 0-3 charges (mod 1..5), both qconj, unsorted/duplicated '
